@@ -1909,7 +1909,9 @@ class MatlabWrapper(CheckMixin, FormatMixin):
         modules = {}
         for file in files:
             with open(file, 'r') as f:
-                content += f.read()
+                # Terminate each file with a newline so that a trailing `//`
+                # comment or token cannot run into the next file.
+                content += f.read() + "\n"
 
         # Parse the contents of the interface file
         parsed_result = parser.Module.parseString(content)
